@@ -132,6 +132,8 @@ class KDPseudoLabelWrapper(KDWrapper):
     def getall_class(self):
         if self.tau is not None or self.topk is not None:
             raise NotImplementedError
+        if self.threshold is not None:
+            return [self.getitem_class(idx) for idx in range(len(self))]
         if self.pseudo_labels.ndim == 1:
             return self.pseudo_labels.tolist()
         if self.pseudo_labels.ndim == 2:
